@@ -177,6 +177,7 @@ def run(prog, rep, tier):
     if obj is not None and "ordering" in obj.attrs:
         rep.check("PAT.ordering", PT.lvl_of(obj.attrs["ordering"]) <= PT.PAT, fwhere(fc), "the generation order is pattern-only",
                   "the generation order depends on weight values (negative or cancelling weights reorder or drop variables)")
+    rep.exhaustive = True      # the finite tables (pairs / valuations) are enumerated completely
     rep.require_count("CASES", 1)
     rep.require_count("ORDER", 3)
     rep.tables["oracle"] = {"do": ["DO"], "shift only": ["ASSIGN", "NOISE0", "SHIFT"], "noise only": ["ASSIGN", "NEWNOISE"], "none": ["ASSIGN", "NOISE0"]}
